@@ -29,11 +29,18 @@ where
         Sink::Count => rep.count().map(|n| Val::Num(n as u64)).cb(),
         Sink::Unit => rep.collect::<()>().map(|()| Val::Unit).cb(),
         Sink::Bare => rep.map(|()| Val::Unit).cb(),
-        Sink::Exactly(n) => match n {
-            0 => rep.collect_exactly::<[Val; 0]>().map(|a| Val::List(a.into())).cb(),
-            1 => rep.collect_exactly::<[Val; 1]>().map(|a| Val::List(a.into())).cb(),
-            2 => rep.collect_exactly::<[Val; 2]>().map(|a| Val::List(a.into())).cb(),
-            3 => rep.collect_exactly::<[Val; 3]>().map(|a| Val::List(a.into())).cb(),
+        // the fixed-size container is an array or, depending on the bounds of the repetition, the same array behind
+        // Box / Box<Box<..>> (ContainerExactly forwards through Box: its own uninit / write / drop_before / take; the Rc and Arc
+        // implementations are commented out in the library)
+        Sink::Exactly(n) => match (n, this.hint % 3) {
+            (0, _) => rep.collect_exactly::<[Val; 0]>().map(|a| Val::List(a.into())).cb(),
+            (1, 1) => rep.collect_exactly::<Box<[Val; 1]>>().map(|a| Val::List((*a).into())).cb(),
+            (1, _) => rep.collect_exactly::<[Val; 1]>().map(|a| Val::List(a.into())).cb(),
+            (2, 1) => rep.collect_exactly::<Box<[Val; 2]>>().map(|a| Val::List((*a).into())).cb(),
+            (2, 2) => rep.collect_exactly::<Box<Box<[Val; 2]>>>().map(|a| Val::List((**a).into())).cb(),
+            (2, _) => rep.collect_exactly::<[Val; 2]>().map(|a| Val::List(a.into())).cb(),
+            (3, 1) => rep.collect_exactly::<Box<[Val; 3]>>().map(|a| Val::List((*a).into())).cb(),
+            (3, _) => rep.collect_exactly::<[Val; 3]>().map(|a| Val::List(a.into())).cb(),
             _ => rep.collect_exactly::<[Val; 4]>().map(|a| Val::List(a.into())).cb(),
         },
         Sink::Enumerate => rep
@@ -86,6 +93,7 @@ where
 
 pub fn rep_node<'s, I: Kind<'s>, R: Er<'s, I>>(this: &mut Bld<'s, I, R>, r: &Rep) -> BP<'s, I, R> {
     let item = this.build(&r.item);
+    this.hint = r.lo as usize + r.sep.is_some() as usize;
     let lo = r.lo as usize;
     let hi = r.hi.map(|h| h as usize);
     if let Sink::Str = r.sink {
